@@ -23,17 +23,33 @@ LEVEL = "other"
 RULE = ("cases = (a) setter call sequences (astOperand1/astOperand2 mostly, some astTop-cache writes, a separate stream with direct "
         "astParent calls) over 2..9 fresh tokens, (b) token lists over bracket / non-bracket / bracket-prefixed strings (balanced words "
         "with mutations), (c) byte strings weighted to markup and control bytes, (d) pointer values, (e) --dump of corpus and generated "
-        "programs; non-trivial = (a) some state has a node with two operands or a call threw, (b) >= 2 bracket tokens, "
+        "programs, (f) createMutualLinks / link(nullptr) sequences and integers; non-trivial = (a) some state has a node with two operands or a call threw, (b) >= 2 bracket tokens, "
         "(c) >= 1 byte that toxml rewrites, (e) the dump has >= 1 link and >= 1 AST edge")
 EXPLANATION = ("Lean theorems (unbounded): the three Token AST setters preserve acyclicity + parent/operand agreement for every call "
                "sequence, createLinks yields symmetric properly nested links for every token list, toxml output is well-formed attribute "
                "content for every byte string. Tie: in-process differential runs of the real functions against the compiled model; the "
                "dump as a whole is only checked per generated/corpus input (strict XML parse, cppcheckdata load, reference resolution, "
-               "invariants re-evaluated on the dump) - hence level 'other'.")
+               "invariants re-evaluated on the dump) - hence level 'other'. NOT proved: (1) links are proved at creation time only (later "
+               "createMutualLinks/link(nullptr) writes: symmetry lemmas under preconditions, no theorem about the dumped vector); (2) reference "
+               "resolution (every id attribute names exactly one element of the right kind in the same <dump>) has no theorem; (3) document "
+               "well-formedness is not composed from the per-value theorems.")
 THEOREMS = ["Cppcheck.C14." + t for t in (
     "setters_preserve_inv", "setters_preserve_weak", "direct_astParent_breaks_listed", "reachable_inv", "reachable_weak",
     "setters_terminate", "links_symmetric_nested", "links_never_ub", "links_accepted_iff_balanced", "toxml_wellformed", "attrSafe_no_markup",
-    "toxml_roundtrip", "toxml_roundtrip_counterexample", "idString_injective", "idString_wellformed")]
+    "toxml_roundtrip", "toxml_roundtrip_counterexample", "idString_injective", "idString_wellformed",
+    "mutualLinks_preserve_symmetric", "clearPair_preserves_symmetric", "clearLink_alone_counterexample", "number_wellformed",
+    "enum_wellformed")]
+ASSUMPTIONS = [
+    "links: the theorems describe the vector createLinks returns; later passes write links only through createMutualLinks / link(nullptr) "
+    "(T-link-writers) but whether each later write meets the preconditions of mutualLinks_preserve_symmetric / clearPair_preserves_symmetric, "
+    "and nesting of the dumped links, is checked per dump only",
+    "references: 'every id reference resolves inside its <dump>' has no model and no theorem; it is evaluated on every dump of the run "
+    "(31 reference kinds, T-refs keeps the list complete, T-var-refs guards the two Variable reference writers)",
+    "document: per-value results (toxml_wellformed, idString_wellformed, number_wellformed, enum_wellformed) and the writer classification "
+    "(T-writers) are not composed into a theorem about the whole file; floating point values (MathLib::toString(double)) are classified "
+    "'number' without a lemma; expat per dump is the evidence for document well-formedness",
+    "AST: run/trace continue after a throw (the harness catches and continues); real clients unwind and write no dump",
+]
 MODULES = ["Cppcheck.Props.C14"]
 
 
@@ -170,6 +186,30 @@ def links_ok(toks, out):
 SPECIAL = [0x3c, 0x3e, 0x26, 0x22, 0x27, 0x00, 0x0a, 0x09, 0x0d, 0x7f, 0x80, 0xff, 0x1f, 0x20, 0x5c, 0x3b, 0x23]
 
 
+def gen_lnk(rng):
+    """createMutualLinks / link(nullptr) sequences; disciplined = only the writes the symmetry lemmas cover
+    (mutual on two distinct unlinked tokens, clear of both ends of a pair)"""
+    n = rng.choice([2, 3, 4, 6, 8, 12])
+    disciplined = rng.random() < 0.6
+    link = {}
+    ops = []
+    for _ in range(rng.choice([1, 3, 6, 10, 16])):
+        if disciplined:
+            free = [i for i in range(n) if i not in link]
+            if len(free) >= 2 and (rng.random() < 0.65 or not link):
+                a, b = rng.sample(free, 2)
+                ops.append("m %d %d" % (a, b)); link[a] = b; link[b] = a
+            elif link:
+                a = rng.choice(sorted(link)); b = link[a]
+                ops.append("z %d -" % a); ops.append("z %d -" % b); del link[a]; del link[b]
+        else:
+            if rng.random() < 0.7:
+                ops.append("m %d %d" % (rng.randrange(n), rng.randrange(n)))
+            else:
+                ops.append("z %d -" % rng.randrange(n))
+    return "lnk %d %s" % (n, " ".join(ops)), disciplined
+
+
 def gen_bytes(rng):
     n = rng.choice([0, 1, 2, 3, 5, 8, 13, 30])
     b = bytearray()
@@ -220,6 +260,12 @@ def inprocess(ctx, res, drv, exe, thorough):
     for _ in range(n_id):
         v = rng.choice([0, 1, 15, 16, 255, 2 ** 32, 2 ** 64 - 1, rng.getrandbits(rng.choice([8, 16, 32, 47, 48, 64]))])
         ops.append("id %d" % v); meta.append(("id", v))
+    for _ in range(1200 if thorough else 200):
+        line, disc = gen_lnk(rng)
+        ops.append(line); meta.append(("lnk", disc))
+    for _ in range(600 if thorough else 100):
+        v = rng.choice([0, 1, -1, 9, 10, -10, 2 ** 31, -2 ** 31, 2 ** 63 - 1, -2 ** 63, rng.randrange(-10 ** 6, 10 ** 6), rng.getrandbits(62) - 2 ** 61])
+        ops.append("num %d" % v); meta.append(("num", v))
     # corpus first
     cp = os.path.join(core.VERIF, "corpus", "C14", "ops.txt")
     corpus = [l.strip() for l in open(cp) if l.strip() and not l.startswith("#")] if os.path.exists(cp) else []
@@ -232,6 +278,10 @@ def inprocess(ctx, res, drv, exe, thorough):
             cmeta.append(("links", [core.unhx(x).decode("latin-1") for x in f[1:]]))
         elif f[0] == "toxml":
             cmeta.append(("toxml", core.unhx(f[1])))
+        elif f[0] == "lnk":
+            cmeta.append(("lnk", False))
+        elif f[0] == "num":
+            cmeta.append(("num", int(f[1])))
         else:
             cmeta.append(("id", int(f[1])))
     ops = corpus + ops
@@ -250,6 +300,8 @@ def inprocess(ctx, res, drv, exe, thorough):
             return sum(1 for t in op.split(" ")[1:] if core.unhx(t)[:1] in b"(){}[]") >= 2
         if k == "toxml":
             return any(c in b"<>&\"'\0\n\t\r" or c < 32 or c > 127 for c in core.unhx(op.split(" ")[1]))
+        if k == "lnk":
+            return op.count(" m ") >= 2
         return True
     # one correspondence obligation per mechanism
     by = {}
@@ -311,6 +363,16 @@ def inprocess(ctx, res, drv, exe, thorough):
             elif cls and val != info.decode("latin-1"):
                 res.violation("toxml output does not read back: %r -> %r -> %r" % (info, esc, val),
                               dict(kind="toxml", op=op, out=out), concrete=True, key=None)
+        elif kind == "lnk":
+            res.count("lnk:disciplined" if info else "lnk:wild")
+            if info and out != "-":
+                last = [None if v == "-" else int(v) for v in out.split(" | ")[-1].split(",")]
+                if any(j is not None and (j == i or last[j] != i) for i, j in enumerate(last)):
+                    res.violation("createMutualLinks on unlinked tokens / clearing both ends of a pair left an asymmetric link vector: %s" % out[-120:],
+                                  dict(kind="lnk", op=op, out=out), concrete=True, key=None)
+        elif kind == "num":
+            if not re.match(r"^-?[0-9]+$", out) or int(out) != info:
+                res.violation("std::to_string(%d) = %r" % (info, out), dict(kind="num", op=op, out=out), concrete=True, key=None)
         elif kind == "id":
             if int(out, 16) != info or (out != "0" and out.startswith("0")):
                 res.violation("id_string_i(%d) = %r" % (info, out), dict(kind="id", op=op, out=out), concrete=True, key=None)
@@ -347,6 +409,91 @@ def t_callers(ctx, res):
     res.oblig("T-callers:ast-pointers-written-only-by-the-setters", not bad and sites >= 11, "translation",
               "" if not bad and sites >= 11 else "unexpected writer of an AST pointer / caller of astParent(Token*) (sites=%d): %s" % (sites, bad[:5]))
     return bad
+
+
+def translate(ctx):
+    """Gen/DumpEnums.lean: every literal the enum printers called by the dump code can return (enum_wellformed is proved over it)"""
+    table, problems = c14_writers.scan_enums(core.REPO)
+    if table and all(table.values()):
+        ctx.write_gen("DumpEnums", c14_writers.gen_enums_text(table))
+    return table, problems
+
+
+LINK_DIRECT_OK = {
+    ("token.h", "mLink = linkToToken;"), ("token.cpp", "mNext->mLink->mLink = this;"), ("token.cpp", "this->mLink->mLink = mNext;"),
+    ("token.cpp", "std::swap(mLink, mNext->mLink);"), ("token.cpp", "mLink = fromToken->mLink;"),
+}
+
+
+def t_link_writers(ctx, res):
+    """every write of Token::mLink is Token::link() (+ the swapWithNext / takeData moves inside token.cpp), and every call of
+    link(x) in lib/ is `link(nullptr)`, one half of an adjacent mutual pair `a->link(b); b->link(a);`, or takeData's
+    `mLink->link(this);` - so the link vector changes only by the operations of mutualLinks / clearLink (Model/Links.lean)"""
+    import glob
+    bad, n_mutual, n_clear, n_cml = [], 0, 0, 0
+    for f in sorted(glob.glob(os.path.join(core.REPO, "lib", "*.cpp")) + glob.glob(os.path.join(core.REPO, "lib", "*.h"))):
+        base = os.path.basename(f)
+        src = c14_writers.strip_comments(open(f, encoding="utf-8", errors="replace").read())
+        for m in re.finditer(r"\bmLink\s*=[^=]|std::swap\(mLink", src):
+            text = src[src.rfind("\n", 0, m.start()) + 1:src.find("\n", m.start())].strip()
+            if (base, text) not in LINK_DIRECT_OK:
+                bad.append("%s:%d: direct write: %s" % (base, src.count("\n", 0, m.start()) + 1, text))
+        n_cml += len(re.findall(r"\bcreateMutualLinks\s*\(", src))
+        stmts = [(mm.start(), mm.group(1), mm.group(2).strip()) for mm in
+                 re.finditer(r"^[ \t]*([\w>()\[\].\-]+?)(?:->|\.)link\(((?:[^()\n]|\([^()\n]*\))*)\);[ \t]*$", src, re.M)]
+        k = 0
+        while k < len(stmts):
+            pos, recv, arg = stmts[k]
+            line = src.count("\n", 0, pos) + 1
+            if arg == "":
+                k += 1; continue            # a read: tok->link()
+            if arg == "nullptr":
+                n_clear += 1; k += 1; continue
+            if k + 1 < len(stmts) and stmts[k + 1][1] == arg and stmts[k + 1][2] == recv and \
+                    src[pos:stmts[k + 1][0]].count(";") == 1:
+                n_mutual += 1; k += 2; continue
+            if base == "token.cpp" and recv == "mLink" and arg == "this":
+                k += 1; continue            # Token::takeData
+            bad.append("%s:%d: %s->link(%s) is neither a clear nor half of an adjacent mutual pair" % (base, line, recv, arg))
+            k += 1
+    res.extra["link_write_sites"] = dict(createMutualLinks_calls=n_cml, mutual_pairs=n_mutual, clears=n_clear)
+    ok = not bad and n_cml >= 40 and n_mutual >= 20
+    res.oblig("T-link-writers:links-written-only-by-mutual-pairs-and-clears", ok, "translation",
+              "" if ok else "unexpected link writer (createMutualLinks calls=%d, pairs=%d): %s" % (n_cml, n_mutual, bad[:5]))
+
+
+def t_var_refs(ctx, res):
+    """the two places of SymbolDatabase::printXml that write a reference to a Variable are tied to the list <variables> is written from
+    (F14b was a <varlist> entry without that tie)"""
+    src = c14_writers.strip_comments(open(os.path.join(core.REPO, "lib", "symboldatabase.cpp"), encoding="utf-8", errors="replace").read())
+    body = c14_writers.body_of(src, r"void\s+SymbolDatabase::printXml\s*\(std::ostream\s*&out\)\s*const\s*\{") or ""
+    why = []
+    m = re.search(r'"      <varlist>\\n";(.*?)"      </varlist>\\n";', body, re.S)
+    if not m:
+        why.append("<varlist> writer not found")
+    else:
+        w = re.sub(r"\s+", " ", m.group(1))
+        if not re.search(r"if \(var->declarationId\(\) >= mVariableList\.size\(\) \|\| mVariableList\[var->declarationId\(\)\] != &\*var\) continue; outs \+= \" *<var id=", w):
+            why.append("<varlist> entries are not guarded by membership in mVariableList")
+    m = re.search(r'variable=\\"";\s*outs \+= id_string\(arg\);(.*?)\}', body, re.S)
+    if not m or not re.search(r"\b(argVariables\.push_back|variables\.insert)\(arg\);", m.group(1)):
+        why.append("<arg variable=...> does not record the argument for <variables>")
+    if not re.search(r"for \(const Variable \*var : mVariableList\)", body) or not re.search(r"for \(const Variable \*arg : argVariables\)", body):
+        why.append("<variables> is not assembled from mVariableList and the recorded arguments")
+    if not re.search(r"seen\.insert\(var\)\.second", body):
+        why.append("<variables> does not de-duplicate mVariableList (dup-id, c8541cd)")
+    res.oblig("T-var-refs:variable-references-tied-to-the-variables-list", not why, "translation", "; ".join(why))
+
+
+def t_enums(ctx, res):
+    try:
+        table, problems = translate(ctx)
+    except Exception as ex:
+        res.oblig("T-enums:enum-printers-return-literals-only", False, "translation", "scanner failed: %r" % ex)
+        return
+    res.extra["enum_printer_literals"] = {k: len(v) for k, v in table.items()}
+    res.oblig("T-enums:enum-printers-return-literals-only", not problems and len(table) == len(c14_writers.ENUM_FUNCS), "translation",
+              "; ".join(problems[:4]))
 
 
 def t_writers(ctx, res):
@@ -710,9 +857,13 @@ def cli(ctx, res, thorough):
 
 def run(ctx, res):
     thorough = ctx.tier == "thorough"
+    t_enums(ctx, res)            # writes Gen/DumpEnums.lean before the Lean build
     core.prove(ctx, res, MODULES, THEOREMS)
     t_callers(ctx, res)
+    t_link_writers(ctx, res)
+    t_var_refs(ctx, res)
     t_writers(ctx, res)
+    res.assumptions += ASSUMPTIONS
     drv = ctx.driver("drv_c14")
     exe = ctx.harness("c14")
     inprocess(ctx, res, drv, exe, thorough)
